@@ -569,9 +569,15 @@ class ExprMixin:
             return [(V('row', base.a[0]), st)]
         if base.k == 'row' and idx.is_const and isinstance(idx.val, int):
             return [(self.col_of(base.a[0], idx.val, st, node), st)]
-        if base.k == 'exc' and False:
-            pass
-        return [(V('item', base, idx), st)]
+        out = [(V('item', base, idx), st)]
+        # a lookup on an unknown container may raise: fork into enclosing KeyError/IndexError handlers
+        if self.opts.hyp_handlers and isinstance(node.ctx, ast.Load):
+            for t in ('KeyError', 'IndexError'):
+                if any(t in hs or 'LookupError' in hs for hs in st.handlers):
+                    s2 = st.fork()
+                    self.emit(s2, 'RAISE', node, typ=t, at='subscript', hyp=True)
+                    out.append((Raise(t, hyp=True, node=node), s2))
+        return out
 
     def col_of(self, selseq, i, st, node):
         ev = st.trace[selseq]
